@@ -47,6 +47,12 @@ def ListenerSt.update (l : ListenerSt α) (dt : α) : ListenerSt α :=
   { l with position := (l.position.update twVec3 dt Info.empty).1,
            orientation := (l.orientation.update twQuat dt Info.empty).1 }
 
+/-- mirrors: listener.rs::Listener::update with the `Info` the renderer hands it (clocks, modulators; no
+    spatial track): position / orientation may be linked to a modulator or wait for a clock -/
+def ListenerSt.updateWith (l : ListenerSt α) (dt : α) (info : Info α) : ListenerSt α :=
+  { l with position := (l.position.update twVec3 dt info).1,
+           orientation := (l.orientation.update twQuat dt info).1 }
+
 /-- mirrors: track/sub.rs::Track as far as a spatial scene needs it -/
 structure TrackSt (α : Type) where
   id : Nat
